@@ -153,6 +153,7 @@ def explain_with_switches(prog, pred, out, allowed, make_ev=None):
 # "valid program rejected": the order-driven elimination of internal variables
 
 REJECTION_KINDS = [('Found no way to assign variables', 'no-way-to-assign'),
+                   ('there was found no way to assign variables', 'no-way-to-assign'),      # wording inside injected / combine rules
                    ('circular dependency of', 'in-circular-dependency')]
 
 
@@ -322,7 +323,16 @@ def classify_null_equality_under_injection(prog, res, prop, switches=None):
   if res.status != 'mismatch' or res.outcome is None or res.outcome.kind != 'rows':
     return None
   if not any(v is None for r in res.outcome.rows for v in r):
-    return None
+    # the null may live in an intermediate predicate only: the mismatch is the recorded mechanism iff the reference
+    # that lets a repeated variable holding null pass (and nothing else) reproduces the observed rows, and the plan
+    # without injection returns the documented rows
+    try:
+      ev2 = evaluator.Evaluator(prog, switches=dict(switches or {}, null_unifies_with_null=True))
+      cols, table = expected_table(ev2, res.pred)
+      if compare.compare_tables(table, cols, res.outcome.rows, res.outcome.columns, col_types(prog, res.pred, cols)) is not None:
+        return None
+    except (evaluator.Unsupported, evaluator.Capped, evaluator.Ambiguous):
+      return None
   variant = with_noinject_everywhere(prog)
   text, _ = printer.program_text(variant)
   rules, bad = pipeline.parse_program(text)
